@@ -681,6 +681,25 @@ class Gen:
             text = f"pub mod {mod} {{\nuse super::*;\n{text}\n}}\npub use {mod}::*;\n"
         self._emit_labelled(text, fid)
 
+    def _emit_verbatim(self, t: str):
+        """verbatim spec text; lines of a `proof fn` are tagged lemma:<name> so that diagnostics can be attributed"""
+        cur = None
+        buf: List[str] = []
+        def flush():
+            nonlocal buf
+            if buf:
+                self.out.add("".join(buf), ("lemma:" + cur) if cur else None, None)
+                buf = []
+        for line in t.splitlines(keepends=True):
+            m = re.match(r"\s*(?:#\[[^\]]*\]\s*)*(?:pub(?:\([a-z]+\))?\s+)?(?:open\s+|closed\s+|uninterp\s+|broadcast\s+)*(proof|spec|exec)?\s*fn\s+(\w+)", line)
+            if m:
+                flush()
+                cur = m.group(2) if m.group(1) == "proof" else None
+            elif re.match(r"\s*(pub\s+)?(struct|enum|impl|mod|type|const|broadcast\s+group)\b", line):
+                flush(); cur = None
+            buf.append(line)
+        flush()
+
     def _emit_labelled(self, text: str, fid: str):
         """split on /*@L label*/ ... /*@E*/ sentinels so that lines inside carry the label"""
         pos = 0
@@ -713,7 +732,7 @@ class Gen:
                     # the probe build only checks that every function under contract is reachable:
                     # lemmas are not re-verified there
                     t = re.sub(r"(?m)^(\s*)((?:pub\s+)?(?:broadcast\s+)?proof\s+fn\s)", r"\1#[verifier::external_body] \2", t)
-                self.out.add(t)
+                self._emit_verbatim(t)
             elif d.kind == "const":
                 self.emit_const(d)
             elif d.kind in ("struct", "enum"):
